@@ -30,15 +30,15 @@ pub struct Targeted {
 
 const PRELUDE: &str = "local x = get1()\nlocal t = { k = 1, a = 2, [1] = 3 }\nlocal function f2() emit('f2') return 5, 6 end\n";
 
-pub const LEAVES_SMALL: [&str; 10] = ["nil", "true", "false", "1", "'a'", "x", "get1()", "...", "{}", "f2()"];
+pub const LEAVES_SMALL: [&str; 11] = ["nil", "true", "false", "1", "'a'", "x", "nope", "get1()", "...", "{}", "f2()"];
 pub const LEAVES_MORE: [&str; 14] = [
-    "0", "2.5", "-1", "''", "'1'", "'b'", "t", "t.k", "nope", "{get1()}", "function() end", "(f2())", "(...)", "1e-20",
+    "0", "2.5", "-1", "''", "'1'", "'b'", "t", "t.k", "flag2()", "{get1()}", "function() end", "(f2())", "(...)", "1e-20",
 ];
 pub const UNOPS: [&str; 3] = ["not ", "-", "#"];
 pub const BINOPS: [&str; 15] = ["and", "or", "==", "~=", "<", "<=", ">", ">=", "+", "-", "*", "/", "%", "^", ".."];
 
 /// contexts: `@` is replaced by the expression
-pub const CONTEXTS: [&str; 27] = [
+pub const CONTEXTS: [&str; 31] = [
     "return @",
     "return @, 1",
     "return 1, @",
@@ -66,6 +66,10 @@ pub const CONTEXTS: [&str; 27] = [
     "local function v(...) return @ end return v(7, 8)",
     "local function v(...) emit(@) return {@} end return v(7, 8)",
     "return t:k(@)",
+    "local unused = @ return 1",
+    "local u, v = 1, @ return u",
+    "local a = 1, @ return a",
+    "do local w = @ end local function q() local z = @ end return q()",
 ];
 
 const EXPR_RULES: [&str; 6] = [
@@ -196,7 +200,8 @@ fn cond_programs(c: &str) -> Vec<String> {
     v.push(format!("{}if {} then local y = 1 emit(y) return y elseif {} then else end\nif {} then else emit(5) end\nreturn 0\n", PRELUDE, c, c, c));
     v.push(format!("{}for i = 1, 2 do if {} then emit(i) break else emit(-i) end end\nif {} then end\nif x then elseif {} then emit(9) end\n", PRELUDE, c, c, c));
     v.push(format!("{}local n = 0\nrepeat n = n + 1 if n > 2 then break end emit(n) until {}\nreturn n\n", PRELUDE, c));
-    v.push(format!("{}return (if {} then 1 else 2), (if x then 1 elseif {} then f2() else 3), (if {} then f2() else ...)\n", PRELUDE, c, c, c));
+    v.push(format!("{}return (if {} then 1 else 2), (if x then 1 elseif {} then f2() else 3), if {} then f2() else ...\n", PRELUDE, c, c, c));
+    v.push(format!("{}local function v(...) return if {} then ... elseif {} then f2() else f2() end\nemit(v(7, 8))\nreturn {{ if {} then f2() else v(1, 2) }}\n", PRELUDE, c, c, c));
     v
 }
 
@@ -415,7 +420,7 @@ pub fn targeted(seed: u64, thorough: bool) -> Vec<Targeted> {
             out.push(Targeted { family: "expr-ctx", code: in_context(ctx, e), rules: EXPR_RULES.to_vec(), pipeline: false });
         }
     }
-    let n_random = if thorough { 12000 } else { 900 };
+    let n_random = if thorough { 60000 } else { 2500 };
     for i in 0..n_random {
         let d = 1 + rng.below(3);
         let e = random_expr(&mut rng, d);
@@ -451,7 +456,7 @@ pub fn targeted(seed: u64, thorough: bool) -> Vec<Targeted> {
     for p in underscore_programs() {
         out.push(Targeted { family: "underscore", code: p, rules: vec!["remove_unused_variable", "rename_variables", "remove_nil_declaration"], pipeline: true });
     }
-    for p in local_decl_programs(&mut rng, if thorough { 6000 } else { 500 }) {
+    for p in local_decl_programs(&mut rng, if thorough { 30000 } else { 1500 }) {
         out.push(Targeted { family: "local-decl", code: p, rules: vec!["remove_nil_declaration", "remove_unused_variable", "rename_variables", "compute_expression"], pipeline: rng.chance(1, 5) });
     }
     out
